@@ -313,14 +313,31 @@ func c17PrefixUnderLock(c *Check, a *Anchors) {
 
 func c17CloserAlwaysCalled(c *Check, a *Anchors) {
 	c.Rule("closer-always-called", "in the command runner the closer returned by WrapWriter is called after RunCommand on every path, with RunCommand's own error value (not a rewritten one); the stdout/stderr handed to RunCommand are the writers returned by the WrapWriter call of the same invocation")
+	// the function that wraps the writers: the command runner, or the helper it hands the shell execution to
 	fb := a.CmdRunner
+	for _, g := range c.P.groupOf(a.CmdRunner, 2) {
+		if g.Pkg.PkgPath != PkgTask || g == a.RunTask {
+			continue
+		}
+		for _, call := range callsIn(g, false) {
+			if fn, ok := callee(g.Info(), call).(*types.Func); ok && fn.Name() == "WrapWriter" && fn.Pkg() != nil && fn.Pkg().Path() == PkgOutput {
+				fb = g
+			}
+		}
+	}
 	c.Fn(fb)
 	info := fb.Info()
 	f := NewFlow(c.P, fb, func(call *ast.CallExpr, obj types.Object) string {
 		if fn, ok := obj.(*types.Func); ok && fn.Name() == "WrapWriter" && fn.Pkg() != nil && fn.Pkg().Path() == PkgOutput {
 			return "wrap"
 		}
-		return a.labelObj(obj)
+		if obj == a.RunCommandObj {
+			return "runcommand"
+		}
+		if l := a.labelObj(obj); l != "runcommand" {
+			return l
+		}
+		return ""
 	})
 	f.Run()
 	name := fnDisplay(fb)
